@@ -8,7 +8,24 @@ import (
 )
 
 // VerifyFunc generates all obligations for one function against its own contract.
-func VerifyFunc(p *Prog, fi *FuncInfo, modeOverride string) *VC {
+func VerifyFunc(p *Prog, fi *FuncInfo, modeOverride string) (out *VC) {
+	// a construct the executor has no case for must not take the whole check down: it is reported as
+	// "outside the subset" for this function (the obligations generated so far are kept)
+	defer func() {
+		if r := recover(); r != nil {
+			if out == nil {
+				out = NewVC(p, ShortKey(fi.Key), "")
+				out.Fn = fi
+				out.UsedLemmas = map[string]bool{}
+			}
+			out.errorf(fi.Decl.Pos(), "unsupported: verifier has no case for a construct in this function (%v)", r)
+		}
+	}()
+	out = verifyFunc(p, fi, modeOverride)
+	return out
+}
+
+func verifyFunc(p *Prog, fi *FuncInfo, modeOverride string) *VC {
 	ct := p.Specs.Contracts[fi.Key]
 	mode := modeOverride
 	if mode == "" && ct != nil {
